@@ -377,3 +377,11 @@ func GhostGetBV(p interface{}, attr string, w int) BV {
 	}
 	return mkBV(new(big.Int), w)
 }
+
+func HasCase(name string) bool { loadReplay(); _, ok := replayCases[name]; return ok }
+func BVShlSym(x, n BV) BV {
+	if n.v.BitLen() > 31 || int(n.v.Int64()) >= x.w {
+		return mkBV(new(big.Int), x.w)
+	}
+	return mkBV(new(big.Int).Lsh(x.v, uint(n.v.Int64())), x.w)
+}
